@@ -27,7 +27,7 @@ DEPTH = {"quick": 5, "thorough": 7}
 FRAMES = [(), ("t",), ("b",), ("t", "t"), ("t", "b"), ("b", "t"), ("b", "b")]
 FAULTS = [None, 0, 1, 2]
 OPS = ["accept", "accept_sub", "receive", "receive_text", "receive_bytes", "iter_text", "iter_bytes", "send_text", "send_bytes", "close", "close_1001",
-       "raw_accept", "raw_send", "raw_close", "raw_close_nocode", "raw_http", "state"]
+       "raw_accept", "raw_send", "raw_close", "raw_close_nocode", "raw_http", "raw_trunc", "raw_empty", "state"]
 
 
 def script_messages(frames):
@@ -110,6 +110,8 @@ class World:
                 raise
             except BaseException as e:  # noqa
                 out = ("raise", type(e).__name__)
+                if op in self.iters:
+                    self.iters[op] = "done"  # (a generator that raised is finished: the application asks for a new iterator next time)
         self.states.append((ws.client_state.value, ws.application_state.value))
         if op in ("close", "close_1001") and out[0] == "raise" and self.api["closed"] and not self.faulted_in_op:
             self.problems.append(f"{op} raised {out[1]} although the application had already closed the connection (close is idempotent)")
@@ -121,6 +123,10 @@ class World:
                 self.problems.append(f"{op} succeeded although the application had {'already closed' if self.api['closed'] else 'not accepted'} the connection")
             if op in ("receive_text", "receive_bytes", "iter_text", "iter_bytes") and out[1] != "<end of iteration>" and (self.api["closed"] or not self.api["accepted"]):
                 self.problems.append(f"{op} succeeded although the application had {'already closed' if self.api['closed'] else 'not accepted'} the connection")
+            if op in ("iter_text", "iter_bytes") and out[1] == "<end of iteration>" and (self.api["closed"] or not self.api["accepted"]):
+                self.problems.append(f"{op} ended like a finished stream although the application had {'already closed' if self.api['closed'] else 'not accepted'} the connection (an illegal call raises)")
+            if op in ("raw_trunc", "raw_empty"):
+                self.problems.append(f"{op} (an event type that is not a websocket application event) succeeded")
             if op in ("accept", "accept_sub", "raw_accept") and (self.api["accepted"] or self.api["closed"]):
                 self.problems.append(f"{op} succeeded a second time / after close")
             if op in ("accept", "accept_sub", "raw_accept"):
@@ -190,6 +196,10 @@ class World:
             return ws.send({"type": "websocket.close"})  # code and reason are optional
         if op == "raw_http":
             return ws.send({"type": "http.response.start", "status": 200, "headers": []})
+        if op == "raw_trunc":
+            return ws.send({"type": "websocket.sen", "text": "x"})  # a legal name cut short
+        if op == "raw_empty":
+            return ws.send({"type": "", "code": 1000})
         raise KeyError(op)
 
 
@@ -595,7 +605,7 @@ def run_shard(desc, tier):
 
 
 def classify(p):
-    for key, name in (("succeeded although", "illegal-call-succeeded"), ("succeeded a second time", "illegal-call-succeeded"), ("application_state is", "state-after-close"), ("forwarded sequence illegal", "illegal-forwarded-sequence"), ("but forwarded", "raised-but-forwarded"), ("after websocket.disconnect", "receive-after-disconnect"),
+    for key, name in (("ended like a finished stream", "illegal-call-succeeded"), ("not a websocket application event", "illegal-call-succeeded"), ("succeeded although", "illegal-call-succeeded"), ("succeeded a second time", "illegal-call-succeeded"), ("application_state is", "state-after-close"), ("forwarded sequence illegal", "illegal-forwarded-sequence"), ("but forwarded", "raised-but-forwarded"), ("after websocket.disconnect", "receive-after-disconnect"),
                       ("moved backwards", "state-backwards"), ("close is idempotent", "close-not-idempotent"), ("returned frames", "frames-order"), ("close events", "close-not-idempotent"), ("consumed", "frame-lost-or-wrong"), ("returned", "frame-lost-or-wrong")):
         if key in p:
             return name
